@@ -133,6 +133,23 @@ fn real_main() -> i32 {
             };
             let key = doc["key"].as_str().unwrap_or("").to_string();
             let prop = doc["property"].as_str().unwrap_or("").to_string();
+            if key.ends_with(":timeout") && args.get(3).map(|s| s.as_str()) != Some("--inner") {
+                // re-run the case in a child process under a wall limit
+                let mut child = std::process::Command::new(std::env::current_exe().unwrap()).arg("replay").arg(&path).arg("--inner").stdout(std::process::Stdio::null()).spawn().unwrap();
+                let t0 = std::time::Instant::now();
+                loop {
+                    if let Ok(Some(_)) = child.try_wait() {
+                        println!("REPLAY reproduced=false key={} observed=[\"returned after {:.1}s\"]", key, t0.elapsed().as_secs_f64());
+                        return 0;
+                    }
+                    if t0.elapsed().as_secs() > mutate::EVAL_LIMIT_S + 5 {
+                        let _ = child.kill();
+                        println!("REPLAY reproduced=true key={} observed=[\"no return within {}s\"]", key, mutate::EVAL_LIMIT_S + 5);
+                        return 1;
+                    }
+                    std::thread::sleep(std::time::Duration::from_millis(200));
+                }
+            }
             match replay_case(&doc["case"]) {
                 Ok(v) => {
                     let mut keys: Vec<String> = v.iter().map(|x| x.key.clone()).filter(|k| k.starts_with(&format!("{}:", prop))).collect();
